@@ -166,6 +166,19 @@ def _p7(w):
     return dict(kids=match(w.Q)(v=w.k[0])), (lambda o: OR([EQ(q.v, w.k[0]) for q in o.kids])), {"#count": (lambda o: SUM([B2I(EQ(q.v, w.k[0])) for q in o.kids]))}
 
 
+@pattern("kids=match(Q2)(v=k) (nested on collection, subclass)", needs=("kids", "sub"), veq_ok=False)
+def _p7b(w):
+    # ONE element must have both the type and the attribute value
+    return (dict(kids=match(MQ2)(v=w.k[0])), (lambda o: OR([AND(isinstance(q, MQ2), EQ(q.v, w.k[0])) for q in o.kids])),
+            {"#count": (lambda o: SUM([B2I(AND(isinstance(q, MQ2), EQ(q.v, w.k[0]))) for q in o.kids]))})
+
+
+@pattern("kids=match(Q2)() (nested on collection, type only)", needs=("kids", "sub"), veq_ok=False, core=False)
+def _p7c(w):
+    return (dict(kids=match(MQ2)()), (lambda o: OR([isinstance(q, MQ2) for q in o.kids])),
+            {"#count": (lambda o: SUM([B2I(isinstance(q, MQ2)) for q in o.kids]))})
+
+
 @pattern("kids=match_any([q0])", needs=("kids",))
 def _p8(w):
     return dict(kids=match_any([w.pool[0]])), (lambda o: OR([w.same(q, w.pool[0]) for q in o.kids])), {}
